@@ -18,7 +18,8 @@ import (
 //   ; E i epoch creator seq lamport frame p1 p2 ...   event definition (parents = event numbers, self-parent first)
 //   ; P i | X i f | B ep cr seq lam p.. | b ep cr seq lam p.. | R | RESET ep id w .. | M i | G f
 //   ; r                                    restart that re-uses the application's vecfc index object (R creates a fresh one)
-//   ; L mode n                             (header group) ApplyEvent listener policy: 0 every block, 1 from block n on, 2 odd blocks
+//   ; L mode n [flags]                     (header group) ApplyEvent listener policy: 0 every block, 1 from block n on, 2 odd blocks,
+//                                          3 no BeginBlock callback at all; flags 1: nil EndBlock on non-sealing blocks, 2: one-byte vector caches
 //   ; W                                    Store.GetValidators (ids and weights in canonical order)
 //   ; Q i j                                ForklessCause(event i, event j) asked of the instance's index
 //   ; Y n ep cr seq lam frame p..          Process of an inline "ghost" event (id tail n) that is defined nowhere else
@@ -50,6 +51,7 @@ type Scenario struct {
 	Vals   []VW
 	Policy []SealRule
 	ListenMode, ListenN int // "L mode n": which blocks get an ApplyEvent listener (see inst.go Listens)
+	Flags               int // "L mode n flags": 1 = nil EndBlock on non-sealing blocks, 2 = one-byte vector caches
 	Groups [][]string // everything after the header, in order (E definitions and ops, "ALT")
 }
 
@@ -93,6 +95,9 @@ func Parse(in []string) *Scenario {
 		case "L":
 			if len(g) >= 3 {
 				sc.ListenMode, sc.ListenN = int(pu(g[1])), int(pu(g[2]))
+				if len(g) >= 4 {
+					sc.Flags = int(pu(g[3]))
+				}
 			}
 		case "S":
 			if len(g) >= 3 {
@@ -239,8 +244,7 @@ func Exec(sc *Scenario, stat func(string)) []string {
 
 func execOne(sc *Scenario, groups [][]string, stat func(string)) []string {
 	r := &runner{sc: sc, defs: map[int]*EvDef{}, ids: map[int]hash.Event{}, num: map[hash.Event]int{}}
-	inst := NewInst(sc.Cfg, sc.Epoch0, sc.Vals, sc.Policy)
-	inst.ListenMode, inst.ListenN = sc.ListenMode, sc.ListenN
+	inst := NewInstOpts(sc.Cfg, sc.Epoch0, sc.Vals, sc.Policy, sc.ListenMode, sc.ListenN, sc.Flags)
 	var out []string
 	first := true
 	emit := func(toks ...string) {
